@@ -380,6 +380,30 @@ def _load_defaults(tree):
     return out
 
 
+def _any_class_prop_field(tree, prop: str):
+    out = []
+    for c in ast.walk(tree):
+        if isinstance(c, ast.ClassDef):
+            out += _prop_field(c, prop)
+    names = sorted({x.name for x in out})
+    return [_N(x) for x in names]
+
+
+def _ds_attr(tree):
+    """the attribute in which the dataset finder records the root call: self.X = node in a visit_Call that tests for EventDataset"""
+    out = set()
+    for c in ast.walk(tree):
+        if isinstance(c, ast.ClassDef) and "visit_Call" in _methods(c):
+            vc = _methods(c)["visit_Call"]
+            if not any(isinstance(n, ast.Constant) and n.value == "EventDataset" for n in ast.walk(vc)) and not any(isinstance(n, ast.Call) and "is_event_dataset" in ast.unparse(n.func).lower() for n in ast.walk(vc)):
+                continue
+            ps = [a.arg for a in vc.args.args]
+            for n in ast.walk(vc):
+                if isinstance(n, ast.Assign) and len(n.targets) == 1 and isinstance(n.targets[0], ast.Attribute) and isinstance(n.targets[0].value, ast.Name) and n.targets[0].value.id == "self" and isinstance(n.value, ast.Name) and len(ps) >= 2 and n.value.id == ps[1]:
+                    out.add(n.targets[0].attr)
+    return [_N(x) for x in sorted(out)]
+
+
 # canonical name -> (module, finder)
 ROLES: Dict[str, Tuple[str, Callable]] = {
     "_fill_in_default_arguments": ("func_adl.type_based_replacement", _fill),
@@ -409,6 +433,9 @@ ROLES: Dict[str, Tuple[str, Callable]] = {
     "_global_functions": ("func_adl.type_based_replacement", lambda t: _registry_of(t, "register_func_adl_function")),
     "_g_collection_classes": ("func_adl.type_based_replacement", lambda t: _registry_of(t, "register_func_adl_os_collection")),
     "_load_default_global_functions": ("func_adl.type_based_replacement", _load_defaults),
+    "_metadata": ("func_adl.ast.meta_data", lambda t: _any_class_prop_field(t, "metadata")),
+    "_found": ("func_adl.ast.meta_data", lambda t: _any_class_prop_field(t, "found")),
+    "ds": ("func_adl.event_dataset", _ds_attr),
     "_old_ast": ("func_adl.type_based_replacement", _old_ast),
     "_q_metadata": ("func_adl.object_stream", _q_metadata),
     "argument_stack": ("func_adl.ast.call_stack", _cs_stack_class),
@@ -419,7 +446,7 @@ ROLES: Dict[str, Tuple[str, Callable]] = {
     "lookup_name": ("func_adl.ast.call_stack", _cs_lookup),
 }
 # names that are not underscore-prefixed but still private in effect (methods of classes nested in a function)
-INNER = {"type_follow_in_callbacks", "lookup_type", "process_function_call", "process_parameterized_method_call", "process_method_call", "process_method_callbacks", "process_method_call_on_stream_obj", "resolve_generator", "convert_call_to_dict", "argument_stack", "stack_frame", "push_stack_frame", "pop_stack_frame", "define_name", "lookup_name"}
+INNER = {"ds", "type_follow_in_callbacks", "lookup_type", "process_function_call", "process_parameterized_method_call", "process_method_call", "process_method_callbacks", "process_method_call_on_stream_obj", "resolve_generator", "convert_call_to_dict", "argument_stack", "stack_frame", "push_stack_frame", "pop_stack_frame", "define_name", "lookup_name"}
 
 
 class _Rename(ast.NodeVisitor):
